@@ -2,7 +2,7 @@ SPECIFICATION TSpec
 CONSTANTS
   MaxTicks = 1000000
   ROSChoices = {TRUE, FALSE}
-  RefOutcomes = {"nil", "err"}
+  RefOutcomes = {"nil", "err", "ctxerr", "wctxerr", "cause"}
   CloseLate = FALSE
   ExtraRefreshes = FALSE
   MaxExtra = 1000
